@@ -498,6 +498,13 @@ def oracle(case, impl):
                 bad("kernel_support", f"{case['kernel']}({u}) = {k} beyond one bandwidth")
             if abs(u) < 1 and not k > 0:
                 bad("kernel_positive_inside", f"{case['kernel']}({u}) = {k}")
+            want = float(_kernel_np(case["kernel"], np.array([u]))[0])
+            if not abs(k - want) <= 1e-12 * max(1.0, abs(want)):
+                bad("kernel_values", f"{case['kernel']}({u}) = {k!r} but the {case['kernel']} kernel is {want!r} there")
+        for u, ck in zip(us, impl["ck"]):
+            want = float(_kernel_np(case["kernel"], np.array([u]))[0])
+            if not abs(ck - want) <= 1e-12 * max(1.0, abs(want)):
+                bad("kernel_values", f"_compute_kernel at distance {u} bandwidths gives {ck!r}, the {case['kernel']} kernel is {want!r}")
         return vs
     if kind == "reject":
         want = {"bandwidth0": "ValueError", "bandwidth_neg": "ValueError", "degree_neg": "ValueError", "kernel_unknown": "NotImplementedError"}[case["what"]]
